@@ -1315,6 +1315,33 @@ func (m *streeModel) ruleRelink(c *Ctx) {
 		key := fmt.Sprintf("stree.popMinRight:%s.%s=", ksym(a.fa.X), a.fld.Name())
 		base, f := loadedField(st.Val)
 		okV := f != nil && sameField(f, m.large) && base == goat
+		// … and it is the link the removed node was reached through: from the parameter, the field the walk
+		// started at; from the trailing parent, the field the walk follows
+		if gph, isPhi := goat.(*ssa.Phi); isPhi && okV {
+			var f0, f1 *types.Var
+			for i, e := range gph.Edges {
+				b2, g2 := loadedField(e)
+				if g2 == nil {
+					continue
+				}
+				if gph.Block().Dominates(gph.Block().Preds[i]) {
+					if b2 == ssa.Value(gph) {
+						f1 = g2
+					}
+				} else if _, isP := b2.(*ssa.Parameter); isP {
+					f0 = g2
+				}
+			}
+			var want *types.Var
+			if _, isP := a.fa.X.(*ssa.Parameter); isP {
+				want = f0
+			} else if _, isPh := a.fa.X.(*ssa.Phi); isPh {
+				want = f1
+			}
+			if want != nil && !sameField(want, a.fld) {
+				c.bad("R-RELINK", key+" which link", st.Pos(), fmt.Sprintf("the removed minimum was reached through .%s of this node, but the subtree is re-attached to its .%s link: the link that pointed to the removed node still does (a cycle once the node takes the deleted one's place), and the other subtree of this node is lost", want.Name(), a.fld.Name()))
+			}
+		}
 		c.judge(okV, "R-RELINK", key, st.Pos(), "the removed node's large-side subtree is re-attached in its place", "the link that pointed to the removed minimum is set to "+sym(st.Val)+" instead of the removed node's ."+m.large.Name()+" subtree: keys below the removed node are lost")
 	}
 	// pointer-to-link idiom: link := &root.right; for … { link = &(*link).left }; goat := *link; *link = goat.right
